@@ -274,13 +274,38 @@ func c12Exec(input string) string {
 }
 
 // c12Enumerate emits every schedule of the workload (up to quiescence) when they fit into capPer,
-// an evenly spread sample otherwise.
+// an evenly spread sample when there are more, and - when there are so many that the
+// enumeration itself is cut off (its depth-first prefix would fix the early choices) - capPer
+// uniform random walks instead.
 func c12Enumerate(g *hx.Gen, c int, ac bool, ty string, ops []string, capPer int) {
+	const cut = 200000
 	var all [][]int
 	simEnumerate(newSim(c, ac, ops), nil, func(s []int) bool {
 		all = append(all, append([]int(nil), s...))
-		return len(all) < 200000
+		return len(all) < cut
 	})
+	if len(all) >= cut {
+		for i := 0; i < capPer && !g.Done(); i++ {
+			s := newSim(c, ac, ops)
+			var sched []int
+			for steps := 0; steps < 800 && !s.quiescent(); steps++ {
+				var en []int
+				for a := 0; a <= len(s.ws); a++ {
+					if s.clone().step(a) {
+						en = append(en, a)
+					}
+				}
+				if len(en) == 0 {
+					break
+				}
+				a := en[g.Intn(len(en))]
+				s.step(a)
+				sched = append(sched, a)
+			}
+			g.Case(c12Line(c, ac, ty, ops, sched))
+		}
+		return
+	}
 	stride := 1
 	if len(all) > capPer {
 		stride = len(all)/capPer + 1
@@ -295,11 +320,23 @@ func c12Enumerate(g *hx.Gen, c int, ac bool, ty string, ops []string, capPer int
 }
 
 func c12Gen(g *hx.Gen) {
+	// every stage gets its share of the budget in every mode (quick: ~3000 cases in 90 s;
+	// focus = quick x 2.5; thorough: ~16000 cases in 400 s), so that the multi-cycle
+	// histories and the random walks are reached in all of them
+	scale := func(q, t int) int {
+		switch {
+		case g.Tier == "thorough":
+			return t
+		case g.Focus:
+			return q * 5 / 2
+		}
+		return q
+	}
 	// the dangerous shape first: short last chunk, Finalise racing the only background writer
 	// (1) every interleaving of small one-cycle workloads
 	type wl struct{ c, n int }
 	small := []wl{{1, 2}, {2, 3}, {1, 3}}
-	capPer := g.Scale(560, 30000)
+	capPer := scale(560, 3000)
 	for _, w := range small {
 		ty := "i"
 		if g.Chance(0.5) {
@@ -308,8 +345,8 @@ func c12Gen(g *hx.Gen) {
 		ops := c12Workload(g, w.c, w.n, ty, w.n+1, 5)
 		c12Enumerate(g, w.c, false, ty, ops, capPer)
 	}
-	// (1b) every interleaving (or an evenly spread sample) of small multi-cycle histories: the
-	// writers of one cycle against the caller's Clear and the next cycle (what
+	// (1b) every interleaving (or a sample) of small multi-cycle histories: the writers of one
+	// cycle against the caller's pulls, Clear and the next cycle (what
 	// conc_history_sorted_multiset states)
 	type hist struct {
 		c  int
@@ -317,12 +354,13 @@ func c12Gen(g *hx.Gen) {
 		cy [][3]int // pushes, pulls, clear
 	}
 	hists := []hist{
+		{2, false, [][3]int{{1, 0, 1}, {3, 4, 0}}},            // memory-only unpulled, Clear takes the nil from pool (pool stays empty: the next cycle is serialised); spill
 		{1, false, [][3]int{{2, 1, 1}, {2, 3, 0}}},            // spill, partial drain, Clear; spill, drain
-		{2, false, [][3]int{{1, 0, 1}, {3, 4, 0}}},            // memory-only unpulled, Clear (takes the nil from pool); spill
+		{2, false, [][3]int{{1, 2, 1}, {3, 4, 0}}},            // memory-only drained to io.EOF (buffer back in pool), Clear; spill
 		{1, true, [][3]int{{2, 3, 0}, {2, 3, 0}}},             // closed by AutoClear at io.EOF; spill again
 		{2, false, [][3]int{{3, 4, 1}, {1, 2, 1}, {3, 1, 0}}}, // spill, memory-only, spill
 	}
-	capH := g.Scale(260, 20000)
+	capH := scale(210, 1000)
 	for _, h := range hists {
 		ty := "i"
 		if g.Chance(0.5) {
@@ -335,7 +373,7 @@ func c12Gen(g *hx.Gen) {
 		c12Enumerate(g, h.c, h.ac, ty, ops, capH)
 	}
 	// (2) random walks on larger workloads and histories of 1..4 cycles, (3) probes
-	n := g.Scale(750, 20000)
+	n := scale(750, 5000)
 	for k := 0; k < n && !g.Done(); k++ {
 		c := g.Pick(1, 2, 2, 3, 4)
 		chunks := g.Range(1, 4)
